@@ -177,6 +177,12 @@ def dumps(v):
 
 
 def fields_json(fields, layout='compact'):
+    if layout == 'trailing':      # a complete report, then a second JSON value and text
+        return fields_json(fields) + b'\n{"Week":"../../x","X":1,"Config":"v9.9.9"}\n trailing bytes'
+    if layout == 'unknown':       # a field no report has, in the middle
+        fields = fields[:2] + [('Unknown', {'Week': '../x', 'n': [1, 2, None]})] + fields[2:]
+    if layout == 'dupkey':        # Week twice: the first one hostile, the last one counts
+        fields = [('Week', '../../x')] + fields
     if layout == 'reversed':
         fields = list(reversed(fields))
     if layout == 'pretty':
@@ -282,6 +288,8 @@ def devclass(r, dec=None):
         out.append('config')
     if r['x']['kind'] != 'nonzero':
         out.append('x-' + r['x']['kind'])
+    if r.get('layout') in ('trailing', 'unknown', 'dupkey'):
+        out.append('layout-' + r['layout'])
     if r['pform'] == 'list':
         if any(p['nil'] for p in r['programs']):
             out.append('programs-null-element')
@@ -767,6 +775,7 @@ def trace_record(absr, obs, prefix):
             badnames = True
         dirs.append({'y': w['y'], 'm': w['m'], 'd': w['d']})
     req = {k: absr[k] for k in ('kind', 'method', 'week', 'config', 'pform', 'len', 'declared')}
+    req['layout'] = absr.get('layout', 'compact')
     req['x'] = {'kind': absr['x']['kind'], 'val': absr['x']['val']}
     req['programs'] = absr['programs']
     sc = status_class(obs.get('status'))
@@ -926,10 +935,12 @@ def run(ctx):
         'FS buckets below a private storage root, the default size limit of config.NewConfig; request paths are clean paths under /upload/',
         'the request length is either announced (Content-Length = number of body bytes) or not (ContentLength -1 / Transfer-Encoding chunked on the '
         'in-process request, same body reader); a Content-Length that lies about the body is not generated',
-        'a body is exactly one JSON value (possibly preceded by blanks): bodies with bytes after a complete first JSON value are not generated '
-        '(the decoder reads the first value only; DESIGN C12 Limits) -- hence "over the size limit" means the first value itself does not fit',
-        'reports use the documented field names and JSON types; unknown extra fields, case-variant field names, duplicate keys and invalid UTF-8 '
-        'inside otherwise valid reports are not generated',
+        'size classes are reached by padding INSIDE the first JSON value (or with blanks before it), so "over the size limit" means the report '
+        'itself does not fit; when only bytes after a complete report exceed the limit (layout trailing) either outcome is accepted',
+        'reports use the documented field names and JSON types; case-variant field names and invalid UTF-8 inside otherwise valid reports are '
+        'not generated; bodies with bytes after the first JSON value, an unknown field or a duplicated key (layouts trailing / unknown / dupkey) '
+        'are generated with verdict "unspecified": whether they are accepted is not decided, but an accepted one must leave an object that is '
+        'exactly one JSON value with report fields only, each once, and decodes to the report the server validated',
         'verdict "unspecified" (either outcome accepted, never 5xx or a partial effect): year 0000, config shorthands vN / vN.M, X literals that '
         'overflow or underflow a float64, a null element in Programs',
         '"named by week and X": the object is <week>/<T>.json where T parses to exactly the float64 X (the decimal formatting of X is not prescribed)',
